@@ -127,7 +127,13 @@ func vhRefcountRun(mode TrieMode) {
 	}
 	// block 2: one or two more changes
 	for i, n := 0, 1+vfChoose("second-change", 0, 1); i < n; i++ {
-		switch vfChoose("op", 0, 3) {
+		switch vfChoose("op", 0, 4) {
+		case 4:
+			// a block whose change set removes a key that may not be in the trie (storage Delete
+			// records such removals unconditionally), applied as a batch
+			b := MapToMPTBatch(map[string][]byte{string(vhKeyRC("k4")): nil})
+			_, err := t.PutBatch(b)
+			vfAssert(err == nil, "batch-remove-ok")
 		case 0:
 			vfAssert(t.Put(vhKeyRC("k3"), []byte{vfU8("v3")}) == nil, "put3-ok")
 		case 1:
@@ -151,12 +157,42 @@ func vhRefcountRun(mode TrieMode) {
 		vhCollect(t2.root, s2)
 	}
 	vhCheckStore(st, mode, s2, s1, 2)
+	// block 3 (optional): bring back what block 1 had (nodes dropped in block 2 and not yet
+	// collected are created again)
+	if !vfBool("third-block-restores-block-1") {
+		return
+	}
+	vfAssert(t.Put(k1, v1) == nil && t.Put(k2, v2) == nil, "restore-ok")
+	t.Flush(3)
+	if _, collapsed := t.root.(*HashNode); collapsed {
+		return
+	}
+	s3 := &vhNodeSet{}
+	t3 := NewTrie(NewHashNode(t.root.Hash()), mode, st)
+	vhExpand(t3)
+	vhCollect(t3.root, s3)
+	both := &vhNodeSet{}
+	both.ns = append(append(both.ns, s1.ns...), s2.ns...)
+	vhCheckStoreLive(st, s3)
+}
+
+// vhCheckStoreLive: every node of the latest trie is stored active with the right count.
+func vhCheckStoreLive(st *storage.MemCachedStore, live *vhNodeSet) {
+	for _, n := range live.ns {
+		data, err := st.Get(makeStorageKey(n.h))
+		vfAssert(err == nil, "block3:live-node-stored")
+		if err != nil {
+			continue
+		}
+		vfAssert(len(data) == len(n.bytes)+5 && data[len(data)-5] == 1, "block3:live-node-active")
+		vfAssert(int(binary.LittleEndian.Uint32(data[len(data)-4:])) == n.refs, "block3:stored-count==references")
+	}
 }
 
 //vf:tier quick
 //vf:unwind 64
 //vf:hash uf+injective
-//vf:bound latest-state mode: block 1 puts two keys (1 byte in quick, 1..2 in thorough, nibbles {0,1}, 1-byte values that may coincide), optional Collapse, then block 2 makes 1..2 changes out of: put a third key / delete one / delete and recreate one / update one; store checked after each flush
+//vf:bound latest-state mode: block 1 puts two keys (1 byte in quick, 1..2 in thorough, nibbles {0,1}, 1-byte values that may coincide), optional Collapse, then block 2 makes 1..2 changes out of: put a third key / delete one / delete and recreate one / update one / batch-remove a symbolic key that may be absent; optionally a third block that puts block 1's pairs back; store checked after each flush
 func VF_C11_stored_counts_latest() { vhRefcountRun(ModeLatest) }
 
 //vf:tier quick
@@ -164,3 +200,43 @@ func VF_C11_stored_counts_latest() { vhRefcountRun(ModeLatest) }
 //vf:hash uf+injective
 //vf:bound same in the garbage-collecting mode (unreferenced nodes marked inactive with the flush height)
 func VF_C11_stored_counts_gc() { vhRefcountRun(ModeGC) }
+
+//vf:tier quick
+//vf:unwind 64
+//vf:hash uf+injective
+//vf:bound both reference-counting modes: a flushed trie with the keys 0000 and 0001 (a three-nibble extension above a branch) and optionally 0100; a second block whose change set removes any 2-byte key over nibbles {0,1} (present or absent, diverging anywhere along the extension) and optionally updates 0000; store checked after the flush
+func VF_C11_batch_removal_along_an_extension() {
+	mode := []TrieMode{ModeLatest, ModeGC}[vfChoose("mode", 0, 1)]
+	st := storage.NewMemCachedStore(storage.NewMemoryStore())
+	t := NewTrie(nil, mode, st)
+	v := []byte{vfU8("v")}
+	vfAssert(t.Put([]byte{0x00, 0x00}, v) == nil && t.Put([]byte{0x00, 0x01}, []byte{vfU8("w")}) == nil, "puts-ok")
+	if vfBool("third-key") {
+		vfAssert(t.Put([]byte{0x01, 0x00}, v) == nil, "put3-ok")
+	}
+	t.Flush(1)
+	s1 := &vhNodeSet{}
+	vhCollect(t.root, s1)
+	if vfBool("collapse") {
+		t.Collapse(0)
+	}
+	k := vfBytes("removed", 2)
+	for _, b := range k {
+		vfAssume(b&0xEE == 0)
+	}
+	changes := map[string][]byte{string(k): nil}
+	if vfBool("also-update") && !(k[0] == 0 && k[1] == 0) {
+		changes[string([]byte{0x00, 0x00})] = []byte{vfU8("v2")}
+	}
+	_, err := t.PutBatch(MapToMPTBatch(changes))
+	vfAssert(err == nil, "batch-ok")
+	t.Flush(2)
+	if _, collapsed := t.root.(*HashNode); collapsed || isEmpty(t.root) {
+		return
+	}
+	s2 := &vhNodeSet{}
+	t2 := NewTrie(NewHashNode(t.root.Hash()), mode, st)
+	vhExpand(t2)
+	vhCollect(t2.root, s2)
+	vhCheckStore(st, mode, s2, s1, 2)
+}
